@@ -377,7 +377,8 @@ func calcStatusCode(cfg *ResponseConfig, a *asset, segmentPart string, nowMS int
 func findLastSegNr(cfg *ResponseConfig, a *asset, nowMS int, rep *RepData) int {
 	wTimes := calcWrapTimes(a, cfg, nowMS, mpd.Duration(60*time.Second))
 	timeLineEntries := a.generateTimelineEntries(rep.ID, wTimes, 0)
-	return timeLineEntries.lastNr()
+	// The timeline entries count from 0 at availabilityStartTime; segment numbers from the start number
+	return timeLineEntries.lastNr() + cfg.getStartNr()
 }
 
 func findSegStartTime(a *asset, cfg *ResponseConfig, nr int, rep *RepData) int {
